@@ -109,6 +109,34 @@ pub fn run(tier: &str) -> i32 {
             }
         }
     }
+    // the families with bytes >= 0x80 in judged 8.3 names once more on a volume mounted with a non-default, injective OEM
+    // code page (FsOptions::oem_cp_converter): every 8.3 text must be spelled with the converter of the volume
+    for (mode, path) in [("root", &root_p), ("sub", &sub_p)] {
+        let mut hashes = Vec::new();
+        for (v, build) in [("a", "dynamic-buffer(alloc)"), ("b", "fixed-buffer(no-alloc)")] {
+            match run_driver(v, &["c17", path.to_str().unwrap(), mode, "oem-alt"]) {
+                Ok(o) => {
+                    evals += o.evals;
+                    per.push(json!({"build": build, "directory": mode, "pass": "non-default OEM code page (injective test converter), families with 8.3 bytes >= 0x80", "evaluations": o.evals, "listing_hash": o.hash}));
+                    hashes.push(o.hash.clone());
+                    for (sig, n, msg) in o.viols {
+                        all.entry(format!("{sig}/{build}/oem-alt")).or_insert((msg, 0, format!("{mode}/{build}/oem-alt"))).1 += n;
+                    }
+                }
+                Err(e) => {
+                    eprintln!("MACHINERY ERROR: {e}");
+                    return 2;
+                }
+            }
+        }
+        if hashes.len() == 2 && hashes[0] != hashes[1] {
+            all.entry("C17/builds-disagree/oem-alt".into()).or_insert((
+                format!("directory {mode}, non-default OEM code page: the dynamic-buffer and the fixed-buffer build return different entries for the same slot contents (listing hashes {} vs {})", hashes[0], hashes[1]),
+                1,
+                mode.to_string(),
+            ));
+        }
+    }
     for (mode, path) in [("root", &root_p), ("sub", &sub_p)] {
         let mut hashes = Vec::new();
         for (v, build) in [("a", "dynamic-buffer(alloc)"), ("b", "fixed-buffer(no-alloc)")] {
@@ -146,7 +174,7 @@ pub fn run(tier: &str) -> i32 {
     rep.coverage = json!({
         "evaluations": evals,
         "distinct_nontrivial": per.len() * 4,
-        "rule": "per directory kind (FAT12 fixed root, FAT32 cluster-chained subdirectory) and per build (dynamic / fixed long-name buffer): full product of per-slot choices (14 order bytes x right/wrong checksum x 3 attribute bytes x 8 text kinds) for runs of 1 and 2 long-name slots x 8 terminators (thorough: 3 slots on 6 orders); maximal and over-long runs; abandoned-run probes; runs with a deleted / inserted foreign slot at every position; every sequence of up to 5 (thorough: 7) slots over twelve slot kinds (last/non-last long-name slots of index 1..3, wrong checksum, index 0 and 21, deleted entry, volume label, foreign short entry) in front of the matching short entry; every value of every byte of a valid 2-slot run + short entry (thorough: all pairs of byte positions on 16 boundary values); every value of every byte of a short entry WITHOUT a run (8.3 display path) for three base names x the four case-flag combinations; every 16-bit value in all five date/time words x 6 values of the 10 ms byte; every value of every name byte with the run re-made for that name; each listing judged against the independent long-name state machine under every admissible reading; distinct_nontrivial = (directory kinds x builds) x 5 case families",
+        "rule": "per directory kind (FAT12 fixed root, FAT32 cluster-chained subdirectory) and per build (dynamic / fixed long-name buffer): full product of per-slot choices (14 order bytes x right/wrong checksum x 3 attribute bytes x 8 text kinds) for runs of 1 and 2 long-name slots x 8 terminators (thorough: 3 slots on 6 orders); maximal and over-long runs; abandoned-run probes; runs with a deleted / inserted foreign slot at every position; every sequence of up to 5 (thorough: 7) slots over twelve slot kinds (last/non-last long-name slots of index 1..3, wrong checksum, index 0 and 21, deleted entry, volume label, foreign short entry) in front of the matching short entry; every value of every byte of a valid 2-slot run + short entry (thorough: all pairs of byte positions on 16 boundary values); every value of every byte of a short entry WITHOUT a run (8.3 display path) for six base names x the four case-flag combinations; the byte sweeps, the special cases and the short slot-kind sequences once more on a volume mounted with a non-default injective OEM code page (FsOptions::oem_cp_converter; the oracle spells 8.3 texts with the same mapping); every 16-bit value in all five date/time words x 6 values of the 10 ms byte; every value of every name byte with the run re-made for that name; each listing judged against the independent long-name state machine under every admissible reading; distinct_nontrivial = (directory kinds x builds) x 5 case families",
         "samples": [
             {"family": "f1/k2", "slots": "[0x42 wrong-checksum attr 0x0F text#2][0x01 right-checksum attr 0x1F text#5][matching short entry]"},
             {"family": "special", "case": "full-run-20-slots-260-units"},
